@@ -307,6 +307,63 @@ def entry_calls(text, modpath):
     return out
 
 
+# ------------------------------------------------------------------ symbol loads, read without any numbering
+def raw_sym_facts(pkgpath, text):
+    """What the package loads and what it calls, as NAMES (independent of `Names` and of the decomposition above):
+    -> dict(loads=[(module variable, [(C string passed as attribute name, symbol variable)])] in the order of <pkg>.init,
+            called=sorted symbol variables whose loaded value is the callee of a PyObject_Call* anywhere in the package,
+            unparsed=[llgoLoadPyModSyms calls that could not be read])"""
+    fns, cstr = parse_ll(text)
+    loads, unparsed, called = [], [], set()
+    for name, blocks in fns.items():
+        vals = {}
+        for _, instrs in blocks:
+            for ins in instrs:
+                m = RE_LOAD_PY.match(ins)
+                if m:
+                    vals[m.group(1)] = "__llgo_py." + m.group(2)
+                    continue
+                m = RE_PYCALL.search(ins)
+                if m and m.group(1) in vals:
+                    called.add(vals[m.group(1)])
+                    continue
+                if "@llgoLoadPyModSyms(" in ins and name == pkgpath + ".init":
+                    m = RE_LOADSYMS.match(ins)
+                    pairs = RE_PAIR.findall(m.group(2)) if m else []
+                    if not m or m.group(1) not in vals or not pairs or m.group(2).count("@__llgo_py.") != len(pairs) \
+                            or m.group(2).count("getelementptr") != len(pairs) or any(cs not in cstr for cs, _ in pairs):
+                        unparsed.append(ins[:300])
+                        continue
+                    loads.append((vals[m.group(1)], [(cstr[cs], "__llgo_py." + var) for cs, var in pairs]))
+                elif "@llgoLoadPyModSyms(" in ins and not ins.startswith("declare"):
+                    unparsed.append("outside init: " + ins[:300])
+    return {"loads": loads, "called": sorted(called), "unparsed": unparsed}
+
+
+def loads_text(loads):
+    """the format of `modeld_c19 loadsyms` / `compile`"""
+    return ";".join("%s:%s" % (mv, ",".join("%s=%s" % (a, v) for a, v in pairs)) for mv, pairs in loads) or "."
+
+
+def judge_loads(loads, called):
+    """The specification, on the real IR alone: every Python function the package calls is stored by the package's own
+    init through `PyObject_GetAttrString(<module object of M>, a)` where the variable is `M.a` and `a` has no dot (the C
+    helper does a plain attribute lookup).  -> list of problems"""
+    problems = []
+    good = set()
+    for modvar, pairs in loads:
+        for cs, var in pairs:
+            if var == modvar + "." + cs and "." not in cs and cs != "":
+                good.add(var)
+            else:
+                problems.append({"problem": "wrong-lookup", "symbol": var, "looked_up_in": modvar, "attribute_string": cs})
+    bad = {p["symbol"] for p in problems}
+    for v in called:
+        if v not in good and v not in bad:
+            problems.append({"problem": "not-loaded", "symbol": v})
+    return problems
+
+
 # ------------------------------------------------------------------ Lean text
 def lean_use(u):
     k, m, a = u
